@@ -70,12 +70,14 @@ structure MethodRow where
   deriving DecidableEq, Repr
 
 /-- One way of reaching `_log` through `catch()`: shape name, the library functions on the stack
-between `_log` and the user's frame (innermost first) and the `from_decorator` flag of the
-`Catcher` instance involved. -/
+between `_log` and the user's frame (innermost first), the `from_decorator` flag of the
+`Catcher` instance involved and the `_frames` argument `__exit__` is called with (its default for
+the `with` protocol, the keyword `__aexit__` passes). -/
 structure CatchRow where
   shape : Str
   chain : List Str
   fromDecorator : Bool
+  frames : Int
   deriving DecidableEq, Repr
 
 /-- posixpath.basename: the part after the last '/'. -/
